@@ -53,7 +53,7 @@ struct Stats {
 struct Explorer {
     std::vector<Op> ops; std::vector<int> rootOps;   // rootOps: op ids enabled only in the initial state
     OracleSet orc; std::string scratch; int workers = 16; int maxDepth = 4; size_t maxStates = 3000000; double deadline = 1e18; double hangSecs = 30;
-    std::string alphabetName;
+    std::string alphabetName; std::string transcriptPath;
 
     using Hist = std::vector<uint16_t>;
     static double now() { return std::chrono::duration<double>(std::chrono::steady_clock::now().time_since_epoch()).count(); }
@@ -273,6 +273,11 @@ struct Explorer {
             R.depthCompleted = level;
             if (R.samples.size() < 6) for (size_t i = 0; i < frontier.size() && R.samples.size() < 6; i += std::max<size_t>(1, frontier.size() / 3)) R.samples.push_back(frontier[i]);
             if (!expand) break;
+            if (!transcriptPath.empty()) {   // C19: one line per transition, in deterministic BFS order
+                FILE* tf = fopen(transcriptPath.c_str(), "a");
+                for (size_t pi = 0; pi < frontier.size(); ++pi) for (auto& t : trans[pi]) fprintf(tf, "%s | %s -> %s %s\n", histText(frontier[pi]).c_str(), ops[t.op].name.c_str(), outcomeName(t.oc), t.k.hex().c_str());
+                fclose(tf);
+            }
             std::vector<Hist> next; std::vector<Key> nkeys;
             for (size_t pi = 0; pi < frontier.size(); ++pi) for (auto& t : trans[pi]) {
                 if (seen.insert(t.k).second) { Hist h = frontier[pi]; h.push_back(t.op); next.push_back(std::move(h)); nkeys.push_back(t.k); }
